@@ -5,6 +5,8 @@ CONSTANTS
   FixedWidths <- Widths
   MaxCell = 3
   StripBeforeEmptyGuard = FALSE
+  BlankCellSkipsCharGuard = TRUE
+  StripsBlanksOnly = TRUE
 INVARIANT TypeOK
 INVARIANT GuardsHold
 INVARIANT Emit
